@@ -2,6 +2,8 @@
 //! input:  P <src> <halt_at> <fuel> <prog> <cmds> <vars> <text>     (see ocaml/c03_driver.ml)
 //!         src = N: runner::run_script(text); src = S<path>: the text is written to <path> and run
 //!         with runner::run_script_file.  <prog>, <halt_at>, <fuel> are for the model only.
+//!         B ...: the same as P for programs whose arguments carry ${x} / %{x} / \${x} templates (the real runner
+//!         always binds); the text is first checked to parse back to <prog>
 //! output: OK - - - <log> <vars>  |  ERR MSG <message> <line> <source> <log> -
 #[path = "../scripted.rs"]
 mod scripted;
@@ -11,9 +13,46 @@ use scripted::*;
 use std::cell::RefCell;
 use std::rc::Rc;
 
+/// compares duckscript::parser::parse_text(text) with the <prog> field (label, output, command, arguments per line)
+fn render_mismatch(prog: &str, text: &str) -> Option<String> {
+    use duckscript::types::instruction::InstructionType;
+    let want: Vec<&str> = if prog == "-" { vec![] } else { prog.split(';').collect() };
+    let got = match duckscript::parser::parse_text(text) {
+        Ok(g) => g,
+        Err(e) => return Some(format!("parse-error-{}", script_error_kind(&e))),
+    };
+    if got.len() != want.len() {
+        return Some(format!("length-{}-{}", got.len(), want.len()));
+    }
+    for (k, (g, w)) in got.iter().zip(want.iter()).enumerate() {
+        let shown = match &g.instruction_type {
+            InstructionType::Empty => "E".to_string(),
+            InstructionType::PreProcess(_) => "P".to_string(),
+            InstructionType::Script(s) => format!(
+                "{}|{}|{}|{}",
+                enc_opt(&s.label),
+                enc_opt(&s.output),
+                enc_opt(&s.command),
+                enc_list(&s.arguments.clone().unwrap_or_default())
+            ),
+        };
+        if &shown != w {
+            return Some(format!("line-{}", k));
+        }
+    }
+    None
+}
+
 fn main() {
     serve(|f| match f[0] {
-        "P" if f.len() >= 8 => {
+        "P" | "B" if f.len() >= 8 => {
+            // B: arguments carry ${x} / %{x} / \${x} templates; the text must parse back to exactly the
+            // instructions of <prog> (a check of the Python renderer, not of the library)
+            if f[0] == "B" {
+                if let Some(m) = render_mismatch(f[4], &dec_str(f[7])) {
+                    return format!("RENDER-MISMATCH {}", m);
+                }
+            }
             let shared = Rc::new(RefCell::new(Shared::default()));
             let cmds = parse_cmds(f[5], &shared);
             let context = make_context(&cmds, parse_vars(f[6]));
